@@ -42,7 +42,7 @@ Step ==
                                      /\ UNCHANGED <<path, col>>
      ELSE UNCHANGED <<path, calls, col>>
 
-EndOfRun == path # "" /\ calls # <<>> /\ (l > Len(Trace) \/ Trace[l].ev = "reset")
+EndOfRun == path # "" /\ calls # <<>> /\ (IF l > Len(Trace) THEN TRUE ELSE Trace[l].ev = "reset")
 
 Variants(c) ==
   IF c.call = "write"
